@@ -79,7 +79,7 @@ class DecimalProxy(AnyAtomicType):
 
     def __new__(cls, value: Any) -> Decimal:  # type: ignore[misc]
         if isinstance(value, (str, UntypedAtomic)):
-            value = collapse_white_spaces(str(value)).replace(' ', '')
+            value = collapse_white_spaces(str(value))
             if cls.pattern.match(value) is None:
                 raise cls._invalid_value(value)
         elif isinstance(value, (float, Float, Decimal)):
